@@ -75,6 +75,8 @@ type armRec struct {
 }
 
 type timerOutcome struct {
+	lastJudged  bool // the last arming was neither superseded nor cancelled: its timeout is owed
+	lastFired   bool
 	crossHeight int
 	fail        *prog.Failure
 	discard     bool
@@ -159,6 +161,24 @@ func runTimer(p TimerProg) timerOutcome {
 	if w := time.Until(end.Add(2 * M)); w > 0 {
 		sleep(w)
 	}
+	firedLast := func() bool {
+		mu.Lock()
+		defer mu.Unlock()
+		for _, c := range cbs {
+			if c.round == last.round && !c.at.Before(last.deadline.Add(-time.Millisecond)) {
+				return true
+			}
+		}
+		return false
+	}
+	out.lastJudged = p.CancelMs == 0
+	if out.lastJudged && !firedLast() {
+		// give a late timer goroutine on a busy machine every chance before calling the timeout missing
+		for i := 0; i < 150 && !firedLast(); i++ {
+			time.Sleep(20 * time.Millisecond)
+		}
+	}
+	out.lastFired = firedLast()
 	mu.Lock()
 	got := append([]cb(nil), cbs...)
 	mu.Unlock()
@@ -316,6 +336,53 @@ func genBatch(t *rapid.T) Batch {
 
 func TestPropTimer(t *testing.T) { prog.Check(t, "C17", "TestPropTimer", genBatch, runBatch) }
 
+// TestPropTimerFires belongs to C07 ("before the cut-off a round timeout always moves an operator to the next round"
+// presupposes that an armed round does time out): the same timer programs on the real RoundTimer, judged for the one
+// thing C17 does not ask - the last arming of a program, neither superseded nor cancelled, gets its callback (waited
+// for up to 3 s past the deadline). Registered in harness/c07/check.json with "pkg": "c17".
+func runBatchFires(b Batch) *prog.Result {
+	res := &prog.Result{}
+	outs := make([]timerOutcome, len(b.Progs))
+	var wg sync.WaitGroup
+	for i := range b.Progs {
+		wg.Add(1)
+		go func(i int) {
+			defer wg.Done()
+			outs[i] = runTimer(b.Progs[i])
+		}(i)
+	}
+	wg.Wait()
+	judged, multi := 0, 0
+	for i, o := range outs {
+		if o.discard || !o.lastJudged {
+			continue
+		}
+		judged++
+		nh := false
+		for _, a := range b.Progs[i].Arms {
+			nh = nh || a.NextHeight
+		}
+		if nh {
+			multi++
+		}
+		if !o.lastFired {
+			res.Fail = &prog.Failure{Sig: "C07:armed-round-never-times-out", Msg: fmt.Sprintf("timer program #%d %+v: the last arming was neither superseded nor cancelled, yet no callback for its round arrived within 3 s after its deadline", i, b.Progs[i])}
+			return res
+		}
+	}
+	prog.Count("TestPropTimerFires", "timer_programs_judged", judged)
+	prog.Count("TestPropTimerFires", "of_which_over_two_heights", multi)
+	res.NonTrivial = multi > 0
+	if judged == 0 {
+		res.Discard = true
+	}
+	return res
+}
+
+func TestPropTimerFires(t *testing.T) {
+	prog.Check(t, "C07", "TestPropTimerFires", genBatch, runBatchFires)
+}
+
 // ---- 2. stale / foreign timeout events at the controller change nothing -----------------------------------
 
 func runCtrl(p qbftsim.Prog) *prog.Result {
@@ -398,6 +465,8 @@ func genCtrl(t *rapid.T) qbftsim.Prog {
 func TestPropControllerTimeouts(t *testing.T) {
 	prog.Check(t, "C17", "TestPropControllerTimeouts", genCtrl, runCtrl)
 }
+
+func TestReplayFires(t *testing.T) { prog.Replay(t, "C07", "TestPropTimerFires", runBatchFires) }
 
 func TestReplay(t *testing.T) {
 	prog.Replay(t, "C17", "TestPropTimer", runBatch)
